@@ -115,6 +115,13 @@ fn handle(req: &Value) -> Value {
 			let csr = rcgen::CertificateParams::default().serialize_request(&k).map_err(|e| e.to_string())?;
 			Ok(json!({"spki": hex(&k.public_key_der()), "alg": alg_name(k.algorithm()), "csr": hex(csr.der())}))
 		},
+		#[cfg(feature = "crypto")]
+		"exportkey" => {
+			// a fixture key brought in through the loading route its `idx` selects, then saved
+			let ks: KeySpec = serde_json::from_value(req["key"].clone()).map_err(|e| format!("INTERNAL: child cannot read the key spec: {e}"))?;
+			let k = keys::make_key(&ks)?;
+			Ok(json!({"pk8": hex(&k.serialize_der()), "pem": k.serialize_pem(), "spki": hex(&k.public_key_der()), "alg": alg_name(k.algorithm())}))
+		},
 		"verify" => {
 			let ok = native_verify(
 				req["alg"].as_str().unwrap_or(""),
@@ -343,6 +350,74 @@ pub fn check_keyx(_: &KeyXchg, _: &mut CaseInfo) -> Result<(), String> {
 	Ok(())
 }
 
+/// A fixture key loaded in one build (through every loading route, SEC1 / PKCS#1 under aws-lc-rs
+/// included), saved there, and loaded in the other build through the auto-detecting and the
+/// explicit PKCS#8 loaders.
+#[derive(Clone, Debug, Serialize, Deserialize, PartialEq, Eq, Hash)]
+pub struct LoadedKeyXchg {
+	pub key: KeySpec,
+	pub aws_to_ring: bool,
+	pub pem: bool,
+}
+
+#[cfg(feature = "crypto")]
+pub fn check_loaded_keyx(k: &LoadedKeyXchg, info: &mut CaseInfo) -> Result<(), String> {
+	let mut ks = k.key;
+	ks.remote = false;
+	info.nontrivial = true;
+	let fx = keys::fixture(&ks);
+	let route = (ks.idx as usize / keys::fixtures().pools[&ks.alg].len()) % keys::LOADER_ROUTES;
+	info.class(format!("{:?}:route{}:{}:{}", ks.alg, route, if k.aws_to_ring { "aws->ring" } else { "ring->aws" }, if k.pem { "pem" } else { "der" }));
+	let want_alg = alg_name(keys::rcgen_alg(&ks));
+	with_peers(|aws, _| {
+		if k.aws_to_ring {
+			let r = ask(aws, &json!({"op": "exportkey", "key": ks}))?;
+			if r["ok"] != json!(true) {
+				return Err(format!("INTERNAL: the aws-lc-rs child cannot load the fixture key: {}", r["err"]));
+			}
+			let pk8 = unhex(r["pk8"].as_str().unwrap_or(""))?;
+			let pem = r["pem"].as_str().unwrap_or("").to_string();
+			let alg = keys::rcgen_alg(&ks);
+			let loaded = if k.pem {
+				vec![("from_pem", rcgen::KeyPair::from_pem(&pem)), ("from_pkcs8_pem_and_sign_algo", rcgen::KeyPair::from_pkcs8_pem_and_sign_algo(&pem, alg))]
+			} else {
+				vec![
+					("try_from(&[u8])", rcgen::KeyPair::try_from(pk8.as_slice())),
+					("from_pkcs8_der_and_sign_algo", rcgen::KeyPair::from_pkcs8_der_and_sign_algo(&pki_types::PrivatePkcs8KeyDer::from(pk8.clone()), alg)),
+				]
+			};
+			for (how, r2) in loaded {
+				let key = r2.map_err(|e| format!("a {:?} key loaded (route {route}) and saved by the aws-lc-rs build does not load in the ring build through {how}: {e}", ks.alg))?;
+				if key.public_key_der() != fx.spki {
+					return Err(format!("a key saved by the aws-lc-rs build loads in ring ({how}) with a different public key"));
+				}
+				if how.contains("sign_algo") && alg_name(key.algorithm()) != want_alg {
+					return Err(format!("a key saved by the aws-lc-rs build loads in ring ({how}) as {}", alg_name(key.algorithm())));
+				}
+			}
+			if r["spki"].as_str() != Some(hex(&fx.spki).as_str()) {
+				return Err("the aws-lc-rs build reports a different public key for the fixture key".into());
+			}
+		} else {
+			let key = keys::make_key(&ks)?;
+			let req = if k.pem { json!({"op": "loadkey", "pem": key.serialize_pem()}) } else { json!({"op": "loadkey", "pk8": hex(&key.serialize_der())}) };
+			let r = ask(aws, &req)?;
+			if r["ok"] != json!(true) {
+				return Err(format!("a {:?} key loaded (route {route}) and saved by the ring build does not load in the aws-lc-rs build: {}", ks.alg, r["err"]));
+			}
+			if r["spki"].as_str() != Some(hex(&fx.spki).as_str()) {
+				return Err("a key saved by the ring build loads in aws-lc-rs with a different public key".into());
+			}
+		}
+		Ok(())
+	})
+}
+
+#[cfg(not(feature = "crypto"))]
+pub fn check_loaded_keyx(_: &LoadedKeyXchg, _: &mut CaseInfo) -> Result<(), String> {
+	Ok(())
+}
+
 fn common_art() -> BoxedStrategy<Art> {
 	// algorithms common to both back ends; half of the cases expressible without a crypto library
 	let fix = |mut c: CertCase, pre: bool, kid_bytes: Vec<u8>| {
@@ -362,7 +437,13 @@ fn common_art() -> BoxedStrategy<Art> {
 			}
 			c.pk_source = PkSource::KeyPair;
 			if let Some(i) = c.issuer.as_mut() {
-				i.spec.kid = KidSpec::Pre(Hex(kid_bytes));
+				// the issuer's own identifier: the same bytes in a third of the cases, other bytes otherwise
+				let mut ib = kid_bytes.clone();
+				if ib.len() % 3 != 0 {
+					ib.reverse();
+					ib.push(0x49);
+				}
+				i.spec.kid = KidSpec::Pre(Hex(ib));
 				i.spec.serial = Some(Hex(vec![0x56]));
 			}
 		}
@@ -385,7 +466,12 @@ fn common_art() -> BoxedStrategy<Art> {
 			}
 			if pre {
 				c.crl.kid = KidSpec::Pre(Hex(kb.clone()));
-				c.issuer.spec.kid = KidSpec::Pre(Hex(kb));
+				let mut ib = kb;
+				if ib.len() % 3 != 0 {
+					ib.reverse();
+					ib.push(0x49);
+				}
+				c.issuer.spec.kid = KidSpec::Pre(Hex(ib));
 				c.issuer.spec.serial = Some(Hex(vec![9]));
 			}
 			Art::Crl(c)
@@ -398,11 +484,15 @@ pub fn def() -> PropertyDef {
 	let _ = mk::KU_ALL;
 	PropertyDef {
 		id: "C16",
-		rule: "Feature sets: the complete product {ring, aws_lc_rs, none} x {pem} x {x509-parser} x {zeroize} for rcgen plus {ring, aws_lc_rs} for rustls-cert-gen, each compiled with cargo check (driven by /verif/check; exhaustive). Differential: certificates / CSRs / CRLs over the C02/C07/C08 spaces with algorithms common to both back ends are generated by the ring build (parent) and by persistent child processes of the aws-lc-rs build and, when the case is expressible without a crypto library (explicit serial, pre-specified key identifiers), of the crypto-less build (remote signer); to-be-signed bytes must be byte-identical, signatures made by one back end must verify with the other's own verifier and with OpenSSL; keys generated and exported (DER/PEM) by one back end must load in the other with the same public key and algorithm. Non-trivial = artefact with at least one extension / attribute / entry; every key exchange; every non-default feature set.",
+		rule: "Feature sets: the complete product {ring, aws_lc_rs, none} x {pem} x {x509-parser} x {zeroize} for rcgen plus {ring, aws_lc_rs} for rustls-cert-gen, each compiled with cargo check (driven by /verif/check; exhaustive). Differential: certificates / CSRs / CRLs over the C02/C07/C08 spaces with algorithms common to both back ends are generated by the ring build (parent) and by persistent child processes of the aws-lc-rs build and, when the case is expressible without a crypto library (explicit serial, pre-specified key identifiers), of the crypto-less build (remote signer); to-be-signed bytes must be byte-identical, signatures made by one back end must verify with the other's own verifier and with OpenSSL; keys generated and exported (DER/PEM) by one back end must load in the other with the same public key and algorithm, and so must fixture keys that one build loaded through any of its loading routes (SEC1 / PKCS#1 documents under aws-lc-rs included) and saved. Non-trivial = artefact with at least one extension / attribute / entry; every key exchange; every non-default feature set.",
 		assumptions: vec!["the children run the same generator-independent Spec -> rcgen mapping (mk.rs), so a difference in output is a difference between the rcgen builds", "fips is not covered (needs a Go toolchain; not in the property's feature list)"],
 		subs: vec![
 			prop_sub("tbs-differential", 16_000, 200_000, common_art, check_tbs),
 			prop_sub("key-exchange", 2_400, 20_000, || (any::<u8>(), any::<bool>(), any::<bool>()).prop_map(|(alg, ring_to_aws, pem)| KeyXchg { alg, ring_to_aws, pem }).boxed(), check_keyx),
+			prop_sub("loaded-key-exchange", 6_000, 60_000, || {
+				// algorithms both back ends load (the parent is the ring build)
+				(crate::gen::key_spec(), any::<bool>(), any::<bool>()).prop_map(|(key, aws_to_ring, pem)| LoadedKeyXchg { key, aws_to_ring, pem }).boxed()
+			}, check_loaded_keyx),
 		],
 	}
 }
